@@ -137,7 +137,8 @@ pub fn gen_case(run_seed: u64, _tier: Tier) -> QvbCase {
         }
         _ => {
             let ty = *rng.pick(&INT_TYS);
-            let n = gen_count(&mut rng);
+            // one in forty: beyond 64 lines (16 384 symbols), where a blocked construction would start over
+            let n = if rng.chance(1, 40) { rng.urange(16_000, 40_000) } else { gen_count(&mut rng) };
             QInit::VectorFromIter(ty, gen_vals(&mut rng, ty, n))
         }
         },
@@ -244,6 +245,25 @@ fn observe(qv: &QVector, m: &[u8], at: &str, out: &mut RunOut, digest: &mut Dige
             }
         }
         Err(msg) => out.violate(sig("iter", panic_kind(&msg), "general"), format!("{at}: iter() panicked: {msg}")),
+    }
+    // once an iterator has returned None it keeps returning None (borrowing and consuming)
+    match catch(|| {
+        let mut a = qv.iter();
+        let mut b = qv.clone().into_iter();
+        for _ in 0..n {
+            a.next();
+            b.next();
+        }
+        let after_a: Vec<Option<u8>> = (0..4).map(|_| a.next()).collect();
+        let after_b: Vec<Option<u8>> = (0..4).map(|_| b.next()).collect();
+        (after_a, after_b)
+    }) {
+        Ok((a, b)) => {
+            if a.iter().chain(b.iter()).any(|x| x.is_some()) {
+                out.violate(sig("iter_after_end", "some_for_none", "general"), format!("{at}: after {n} x next() over {n} symbols four more next() calls returned {a:?} (borrowing) / {b:?} (consuming)"));
+            }
+        }
+        Err(msg) => out.violate(sig("iter_after_end", panic_kind(&msg), "general"), format!("{at}: next() after the end of {n} symbols panicked: {msg}")),
     }
     // count(), last() and size_hint() of an iterator advanced by exactly k symbols (k = len: consumed, not over-polled)
     for k in [0usize, 1, n / 2, n.saturating_sub(1), n, n + 1] {
